@@ -41,7 +41,9 @@ orc_init (void)
 {
   static int inited = FALSE;
 
-  if (!inited) {
+  /* 'inited' is only looked at with the global mutex held: the unlocked first
+   * test of a double-checked lock on a plain int is a data race */
+  {
     orc_global_mutex_lock ();
     if (!inited) {
       ORC_ASSERT(sizeof(OrcExecutor) == sizeof(OrcExecutorAlt));
